@@ -83,7 +83,7 @@ func c36NewEnv() *c36Env {
 		ipnets: map[string]*net.IPNet{},
 	}
 
-	for i, n := range []string{"cid-c1", "cid-c2", "net-8", "net-16", "node-n1", "suf", "suf2", "dm"} {
+	for i, n := range []string{"cid-c1", "cid-c2", "net-8", "net-16", "node-n1", "suf", "suf2", "dm", "node-n2"} {
 		e.rules[n] = NewRateLimiterRule(time.Hour*time.Duration(1001+i), 1)
 	}
 
@@ -199,9 +199,18 @@ type c36Sys struct {
 }
 
 func c36NewSys(env *c36Env, cfg c36Cfg, addr *net.UDPAddr) *c36Sys {
+	return c36NewSysWith(env, cfg, addr, nil)
+}
+
+// c36NewSysWith: setargs may change the handler arguments (MaxAddrs, ExpireAddr) before the handler is made.
+func c36NewSysWith(env *c36Env, cfg c36Cfg, addr *net.UDPAddr, setargs func(*RateLimitHandlerArgs)) *c36Sys {
 	args := NewRateLimitHandlerArgs()
 	args.PoolSizes = []uint64{2, 2}
 	args.Rules = NewRateLimiterRules()
+
+	if setargs != nil {
+		setargs(args)
+	}
 
 	h, err := NewRateLimitHandler(args)
 	if err != nil {
@@ -311,6 +320,12 @@ func (s *c36Sys) apply(ev c36Event) *c36Result {
 		case "nil":
 			_ = rules.SetNodeRuleSet(nil)
 			s.m.nodes = nil
+		case "n1n2": // both nodes have a rule of their own (part A)
+			_ = rules.SetNodeRuleSet(NewNodeRateLimiterRuleSet(map[string]RateLimiterRuleMap{
+				s.env.nodes["n1"].String(): s.rulemap("node-n1"),
+				s.env.nodes["n2"].String(): s.rulemap("node-n2"),
+			}))
+			s.m.nodes = map[string]string{"n1": "node-n1", "n2": "node-n2"}
 		default:
 			_ = rules.SetNodeRuleSet(NewNodeRateLimiterRuleSet(map[string]RateLimiterRuleMap{
 				s.env.nodes["n1"].String(): s.rulemap("node-n1"),
